@@ -60,7 +60,15 @@ def gate_cases(run: Run, n_each):
               BlochSphereRotation(0, (1, 2, -3), math.pi), BlochSphereRotation(0, (-1e-4, -1, -1), math.pi), dg.I(0),
               dg.Rx(0, Float(3.1415927)), dg.Ry(0, Float(-math.pi + 1e-7)), BlochSphereRotation(0, (1, 1, 1), 2 * math.pi / 3),
               BlochSphereRotation(0, (-1, -1, 0), math.pi + 1e-5), BlochSphereRotation(0, (1, 3e-4, 3e-4), math.pi),
-              BlochSphereRotation(0, (-1, -1, 0), 1.1e-7), dg.H(0), dg.X(0), dg.Y(0), dg.Z(0), dg.S(0), dg.T(0)]
+              BlochSphereRotation(0, (-1, -1, 0), 1.1e-7), dg.H(0), dg.X(0), dg.Y(0), dg.Z(0), dg.S(0), dg.T(0),
+              BlochSphereRotation(0, (0, 0, 1), 0.0, 0.4), BlochSphereRotation(0, (0, 0, -1), 2 * math.pi, 0.0), BlochSphereRotation(0, (0, 0, 1), 1e-9, 1.0),
+              BlochSphereRotation(0, (0, 0, -1), 0.7), BlochSphereRotation(0, (0, 0, -1), -2.5, 0.3), BlochSphereRotation(0, (1, 0, 0), 0.0, 2.0)]
+    # half-turns about axes with negative components, as merging two default gates produces them
+    from opensquirrel.merger.general_merger import compose_bloch_sphere_rotations as _comp
+    for a_ in G.NOPARAM:
+        for b_ in G.NOPARAM:
+            try: corpus.append(_comp(getattr(dg, a_)(0), getattr(dg, b_)(0)))
+            except Exception: pass
     for o in corpus:
         for d in O.DECOMPOSERS:
             cases.append({"d": d, "s": W.w_stmt(ControlledGate(1, o)) if d == "CNOT" else W.w_stmt(o), "band": False})
@@ -268,6 +276,19 @@ def merge_cases(run: Run):
             for r_ in ("Rx", "Ry", "Rz"):
                 if rng.random() < run.n(0.25, 1.0):
                     cases.append({"c": {"nq": 1, "nb": 1, "stmts": [W.w_stmt(getattr(_dg0, a_)(0)), W.w_stmt(getattr(_dg0, r_)(0, _F0(th)))]}, "band": False, "ex": False})
+    # a rotation directly followed by its exact inverse (cos^2 + sin^2 may evaluate to 1.0000000000000002)
+    from opensquirrel.ir import BlochSphereRotation as _B1
+    import opensquirrel.default_gates as _dg1
+    from opensquirrel.ir import Float as _F1
+    for _ in range(run.n(400, 6000)):
+        th = rng.uniform(-math.pi, math.pi)
+        if rng.random() < 0.5:
+            nm_ = rng.choice(["Rx", "Ry", "Rz"])
+            pair = [W.w_stmt(getattr(_dg1, nm_)(0, _F1(th))), W.w_stmt(getattr(_dg1, nm_)(0, _F1(-th)))]
+        else:
+            ax = rng.choice([(1, 1, 0), (1, 0, 1), (0, 1, 1), (1, 1, 1), (1, -1, 0), (1, 2, 3)])
+            pair = [W.w_stmt(_B1(0, ax, th, 0.0)), W.w_stmt(_B1(0, ax, -th, 0.0))]
+        cases.append({"c": {"nq": 1, "nb": 1, "stmts": pair}, "band": False, "ex": False})
     # lone named rotations whose operation coincides with a parameter-free default gate (must keep name and parameter)
     import opensquirrel.default_gates as _dg
     from opensquirrel.ir import Float as _F
